@@ -17,7 +17,10 @@ SEED_CHECKS = {'C01-a': ['C01', 'C12'], 'C12-a': ['C12'], 'C13-a': ['C13'], 'C05
                'C13-b': ['C13'], 'C15-b': ['C15'], 'C17-b': ['C17'], 'C18-b': ['C18'],
                'C01-c': ['C01', 'C08'], 'C02-c': ['C02', 'C17'], 'C03-c': ['C03'], 'C05-c': ['C05'], 'C06-c': ['C06', 'C18'], 'C07-c': ['C07'],
                'C08-c': ['C08', 'C03'], 'C16-a': ['C16'], 'C04-c': ['C04'], 'C09-c': ['C09'], 'C11-c': ['C11'], 'C12-c': ['C12'], 'C13-c': ['C13'],
-               'C15-c': ['C15'], 'C17-c': ['C17'], 'C18-c': ['C18', 'C08'], 'C10-c': ['C10']}
+               'C15-c': ['C15'], 'C17-c': ['C17'], 'C18-c': ['C18', 'C08'], 'C10-c': ['C10'],
+               'C01-d': ['C01', 'C11'], 'C02-d': ['C02'], 'C03-d': ['C03'], 'C04-d': ['C04'], 'C05-d': ['C05', 'C10'], 'C06-d': ['C06'], 'C07-d': ['C07'],
+               'C08-d': ['C08'], 'C09-d': ['C09'], 'C10-d': ['C10', 'C09'], 'C11-d': ['C11'], 'C12-d': ['C12'], 'C13-d': ['C13'], 'C15-d': ['C15', 'C16'],
+               'C16-b': ['C16'], 'C17-d': ['C17'], 'C18-d': ['C18', 'C15']}
 
 
 def run(pid):
